@@ -10,9 +10,14 @@ func DecodeJson(r io.Reader, cont Proc) *Proc {
 	decoder := json.NewDecoder(r)
 	decoder.UseNumber()
 	var proc Proc
+	depth := 0
 	proc = func(token *Token) (Proc, error) {
 		jsonToken, err := decoder.Token()
 		if err == io.EOF {
+			if depth > 0 {
+				// the document ended inside an array or object
+				return nil, io.ErrUnexpectedEOF
+			}
 			return cont, nil
 		}
 		if err != nil {
@@ -24,15 +29,19 @@ func DecodeJson(r io.Reader, cont Proc) *Proc {
 		case json.Delim:
 			switch jsonToken {
 			case '[':
+				depth++
 				token.Kind = KindArray
 				return proc, nil
 			case ']':
+				depth--
 				token.Kind = KindArrayEnd
 				return proc, nil
 			case '{':
+				depth++
 				token.Kind = KindObject
 				return proc, nil
 			case '}':
+				depth--
 				token.Kind = KindObjectEnd
 				return proc, nil
 			default:
